@@ -3,7 +3,8 @@
    checks give an error, never a panic.  Only statements, each closed by [exact]. *)
 From Coq Require Import Permutation.
 From Eino Require Import Base.Util Base.FMUniverse Model.FieldMap Proofs.FieldMapOverlap
-  Proofs.FieldMapAssign Proofs.FieldMapComm Proofs.FieldMapGetPut Proofs.FieldMapRun.
+  Model.FieldMapOwn Proofs.FieldMapAssign Proofs.FieldMapComm Proofs.FieldMapGetPut Proofs.FieldMapRun
+  Proofs.FieldMapOwn.
 
 (* ---------------------------------------------------------------- overlap detection *)
 
@@ -25,6 +26,15 @@ Theorem overlap_per_declaration :
   forall (dps : list (list path)) (t : trie), tinsert_decls dps t = tinsert_all (List.concat dps) t.
 Proof. exact tinsert_decls_flat. Qed.
 Print Assumptions overlap_per_declaration.
+
+(* acceptance by Compile (overlap check AND static validation of every declaration) is the
+   same for every declaration order *)
+Theorem compile_accept_order_independent :
+  forall (env : senv) (T : ty) (ds ds' : list decl),
+    Permutation ds ds' ->
+    ((exists ckss, compile env T ds = CAccept ckss) <-> (exists ckss', compile env T ds' = CAccept ckss')).
+Proof. exact compile_accept_perm. Qed.
+Print Assumptions compile_accept_order_independent.
 
 Example overlap_accepts : overlap_check [[10; 2]; [10; 5; 0]; [13; 23]; [14]]%N = true.
 Proof. vm_compute. reflexivity. Qed.
@@ -100,26 +110,30 @@ Theorem assign_get_put :
 Proof. exact convert_to_spec. Qed.
 Print Assumptions assign_get_put.
 
-(* Invoke through an accepted set of field mappings (every declaration order, since
-   acceptance is order independent), predecessors returning values of their declared
-   types: never a panic; if it succeeds, every mapped target path of the successor's input
-   holds the value found at the source path of its predecessor's output, and every path
-   that does not overlap a target path reads as zero. *)
+(* Invoke through an accepted set of field mappings and static values (every declaration
+   order, since acceptance is order independent), predecessors returning values of their
+   declared types: never a panic; if it succeeds, every mapped target path of the
+   successor's input holds the value found at the source path of its predecessor's output,
+   every static path holds its constant, and every path that overlaps none of them reads
+   as zero.  ([ss] = [] : no SetStaticValue; then compile_s / run_invoke_s are compile /
+   run_invoke.) *)
 Theorem mapped_get_put :
-  forall (env : senv) (T : ty) (ds : list decl) (ckss : list checks) (srcs : list val),
-    compile env T ds = CAccept ckss -> has_plain ds = false ->
+  forall (env : senv) (T : ty) (ds : list decl) (ss : statics) (ckss : list checks) (srcs : list val),
+    compile_s env T ds ss = CAccept ckss -> has_plain ds = false ->
     Forall2 (fun d s => has_type env (d_ty d) s = true) ds srcs ->
-    match run_invoke env T ds ckss srcs with
+    match run_invoke_s env T ds ss ckss srcs with
     | Panic => False
     | Err _ => True
     | Ok v =>
         (forall d s from to, In (d, s) (combine ds srcs) -> In (from, to) (d_maps d) ->
            exists x st b, take_path env s from = Ok x /\ extract_ty env T to = SOk st b /\
                           take_path env v to = Ok (conv st x)) /\
-        (forall q z, q <> [] -> fresh_for q (all_targets ds) -> take_path env v q = Ok z ->
+        (forall to x, In (to, x) ss ->
+           exists st b, extract_ty env T to = SOk st b /\ take_path env v to = Ok (conv st x)) /\
+        (forall q z, q <> [] -> fresh_for q (all_targets ds ++ map fst ss) -> take_path env v q = Ok z ->
            exists st b, extract_ty env T q = SOk st b /\ z = zero st)
     end.
-Proof. exact invoke_spec. Qed.
+Proof. exact invoke_spec_s. Qed.
 Print Assumptions mapped_get_put.
 
 (* AddInput without mappings: accepted only alone; the successor gets the value itself *)
@@ -142,19 +156,30 @@ Definition ex_srcs : list val :=
     VMap true TAny (Some [(100, VNil); (101, VInt 9)]);
     VInt 3 ]%N.
 
+Definition ex_statics : statics := [([15], VStr "const"); ([17; 100], VStr "k")]%N.
+
 Example mapped_get_put_nonvacuous :
   exists ckss v,
-    compile ex_env (TStruct 2) ex_decls = CAccept ckss /\ has_plain ex_decls = false /\
+    compile_s ex_env (TStruct 2) ex_decls ex_statics = CAccept ckss /\ has_plain ex_decls = false /\
     Forall2 (fun d s => has_type ex_env (d_ty d) s = true) ex_decls ex_srcs /\
-    run_invoke ex_env (TStruct 2) ex_decls ckss ex_srcs = Ok v /\
+    run_invoke_s ex_env (TStruct 2) ex_decls ex_statics ckss ex_srcs = Ok v /\
     take_path ex_env v [11; 2]%N = Ok (VInt 7) /\ take_path ex_env v [10; 3]%N = Ok (VStr "deep") /\
     take_path ex_env v [13; 101; 102]%N = Ok VNil /\ take_path ex_env v [19; 100; 5; 0]%N = Ok (VInt 9) /\
+    take_path ex_env v [15]%N = Ok (VStr "const") /\ take_path ex_env v [17; 100]%N = Ok (VStr "k") /\
     take_path ex_env v [11; 3]%N = Ok (VStr "") /\ ckss <> [[]; []; []].
 Proof.
   eexists. eexists. split; [vm_compute; reflexivity|].
   split; [reflexivity|]. split; [repeat constructor|].
   split; [vm_compute; reflexivity|]. repeat split; try (vm_compute; reflexivity). discriminate.
 Qed.
+
+(* a static value of the wrong type is rejected at compile time (F-C15j: it used to be
+   accepted and every run panicked) *)
+Example static_value_rejected :
+  compile_s ex_env (TStruct 2) ex_decls [([15], VInt 1)]%N = CErrStatic /\
+  convert_to ex_env (TStruct 2) [([15], VInt 1)]%N = Panic /\
+  compile_s ex_env (TStruct 2) ex_decls [([11], VNil)]%N = CErrOverlap.
+Proof. vm_compute. repeat split; reflexivity. Qed.
 
 (* ---------------------------------------------------------------- errors, never a panic *)
 
@@ -164,13 +189,13 @@ Qed.
    interface-typed source for a concrete target, nil values, missing keys, nil pointers)
    end in [Err] or in a value. *)
 Theorem runtime_check_errors :
-  forall (env : senv) (T : ty) (ds : list decl) (ckss : list checks),
-    compile env T ds = CAccept ckss ->
+  forall (env : senv) (T : ty) (ds : list decl) (ss : statics) (ckss : list checks),
+    compile_s env T ds ss = CAccept ckss ->
     (forall srcs, Forall2 (fun d s => has_type env (d_ty d) s = true) ds srcs ->
-                  run_invoke env T ds ckss srcs <> Panic) /\
+                  run_invoke_s env T ds ss ckss srcs <> Panic) /\
     (forall chunkss, Forall2 (fun d cs => Forall (fun c => has_type env (d_ty d) c = true) cs) ds chunkss ->
-                     run_stream env T ds ckss chunkss <> Panic).
-Proof. exact run_no_panic. Qed.
+                     run_stream_s env T ds ss ckss chunkss <> Panic).
+Proof. exact run_no_panic_s. Qed.
 Print Assumptions runtime_check_errors.
 
 (* a run-time-checked mapping whose value does not fit: [Err], and a nil interface on the
@@ -199,15 +224,20 @@ Print Assumptions runtime_check_errors_v0_refuted.
    and converted on its own; each converted chunk holds the values of the mappings whose
    source resolved in that chunk and is zero everywhere else. *)
 Theorem stream_itemwise :
-  forall (env : senv) (T : ty) (ds : list decl) (ckss : list checks) (chunkss : list (list val)),
-    compile env T ds = CAccept ckss -> has_plain ds = false ->
+  forall (env : senv) (T : ty) (ds : list decl) (ss : statics) (ckss : list checks) (chunkss : list (list val)),
+    compile_s env T ds ss = CAccept ckss -> has_plain ds = false ->
     Forall2 (fun d cs => Forall (fun c => has_type env (d_ty d) c = true) cs) ds chunkss ->
-    match run_stream env T ds ckss chunkss with
+    match run_stream_s env T ds ss ckss chunkss with
     | Panic => False
     | Err _ => True
-    | Ok vs => stream_rel env T ds chunkss vs
+    | Ok vs =>
+        match ss with
+        | [] => stream_rel env T ds chunkss vs
+        | _ => (* the static values arrive as one more chunk *)
+               exists vs' v, vs = vs' ++ [v] /\ stream_rel env T ds chunkss vs' /\ static_chunk_post env T ss v
+        end
     end.
-Proof. exact stream_spec. Qed.
+Proof. exact stream_spec_s. Qed.
 Print Assumptions stream_itemwise.
 
 (* The stream in which every predecessor delivers its Invoke value as a single chunk: it
@@ -216,16 +246,23 @@ Print Assumptions stream_itemwise.
    so overlaying the chunks (what the successor's stream concatenation does, C14/C04) gives
    the Invoke value. *)
 Theorem stream_agrees :
-  forall (env : senv) (T : ty) (ds : list decl) (ckss : list checks) (srcs : list val) (v : val),
-    compile env T ds = CAccept ckss -> has_plain ds = false ->
+  forall (env : senv) (T : ty) (ds : list decl) (ss : statics) (ckss : list checks) (srcs : list val) (v : val),
+    compile_s env T ds ss = CAccept ckss -> has_plain ds = false ->
     Forall2 (fun d s => has_type env (d_ty d) s = true) ds srcs ->
-    run_invoke env T ds ckss srcs = Ok v ->
-    exists vs, run_stream env T ds ckss (map (fun s => [s]) srcs) = Ok vs /\
+    run_invoke_s env T ds ss ckss srcs = Ok v ->
+    exists vs, run_stream_from env T ds ckss (map (fun s => [s]) srcs) = Ok vs /\
       Forall2 (fun d vi =>
                  (forall from to, In (from, to) (d_maps d) -> take_path env vi to = take_path env v to) /\
                  (forall q z, q <> [] -> fresh_for q (map snd (d_maps d)) -> take_path env vi q = Ok z ->
-                              exists st b, extract_ty env T q = SOk st b /\ z = zero st)) ds vs.
-Proof. exact FieldMapRun.stream_agrees. Qed.
+                              exists st b, extract_ty env T q = SOk st b /\ z = zero st)) ds vs /\
+      match ss with
+      | [] => run_stream_s env T ds ss ckss (map (fun s => [s]) srcs) = Ok vs
+      | _ => exists vst, run_stream_s env T ds ss ckss (map (fun s => [s]) srcs) = Ok (vs ++ [vst]) /\
+                         (forall to x, In (to, x) ss -> take_path env vst to = take_path env v to) /\
+                         (forall q z, q <> [] -> fresh_for q (map fst ss) -> take_path env vst q = Ok z ->
+                                      exists st b, extract_ty env T q = SOk st b /\ z = zero st)
+      end.
+Proof. exact stream_agrees_s. Qed.
 Print Assumptions stream_agrees.
 
 Example stream_agrees_nonvacuous :
@@ -244,13 +281,68 @@ Proof. eexists. eexists. split; [vm_compute; reflexivity|]. split; [vm_compute; 
 
 (* ---------------------------------------------------------------- predecessors' outputs *)
 
+(* Model/FieldMapOwn.v runs assignOne / convertTo on values whose heap objects (pointer
+   targets, maps) carry an ownership tag — allocated by this convertTo call, or existing
+   before (reachable from a predecessor's output or a static value; the stored values share
+   their objects with the source, as in Go) — and reports whether an object that existed
+   before was written to (SetMapIndex on it, field.Set in it).  Forgetting the tags gives
+   exactly [convert_to]; for overlap-free target paths the report is always "no". *)
+Theorem convert_writes_only_fresh :
+  forall (env : senv) (T : ty) (m : fmap),
+    convert_to env T m = res_map (fun r => erase (fst r)) (convert_to_w env T m) /\
+    (forall d fl, no_conflict (keys m) -> convert_to_w env T m = Ok (d, fl) -> fl = false).
+Proof. exact (fun env T m => conj (erase_convert_to_w env T m) (convert_to_w_own env T m)). Qed.
+Print Assumptions convert_writes_only_fresh.
+
+(* Whole runs: Invoke and Stream through accepted field mappings and static values are the
+   instrumented runs, and those never write to an object that existed before the conversion:
+   the predecessors' outputs are not modified. *)
+Theorem source_unmodified :
+  forall (env : senv) (T : ty) (ds : list decl) (ss : statics) (ckss : list checks),
+    compile_s env T ds ss = CAccept ckss -> has_plain ds = false ->
+    (forall srcs,
+       run_invoke_s env T ds ss ckss srcs = res_map fst (run_invoke_w env T ds ss ckss srcs) /\
+       forall v fl, run_invoke_w env T ds ss ckss srcs = Ok (v, fl) -> fl = false) /\
+    (forall chunkss,
+       run_stream_s env T ds ss ckss chunkss = res_map fst (run_stream_w env T ds ss ckss chunkss) /\
+       forall vs fl, run_stream_w env T ds ss ckss chunkss = Ok (vs, fl) -> fl = false).
+Proof. exact source_unmodified_run. Qed.
+Print Assumptions source_unmodified.
+
+(* non-vacuity, and why the overlap check matters here: with overlapping targets convertTo DOES
+   write into the predecessor's map / into what the predecessor's pointer points to *)
+Example source_unmodified_nonvacuous :
+  (exists ckss v, compile_s ex_env (TStruct 2) ex_decls ex_statics = CAccept ckss /\
+                  run_invoke_w ex_env (TStruct 2) ex_decls ex_statics ckss ex_srcs = Ok (v, false)) /\
+  (exists d, convert_to_w ex_env (TStruct 2) [([16], VMap true TAny (Some [])); ([16; 100], VInt 1)]%N = Ok (d, true)) /\
+  (exists d, convert_to_w ex_env (TStruct 2) [([11], VPtr (TStruct 1) (Some (VStruct 1 []))); ([11; 2], VInt 5)]%N = Ok (d, true)).
+Proof.
+  split; [eexists; eexists; split; vm_compute; reflexivity|].
+  split; eexists; vm_compute; reflexivity.
+Qed.
+
 (* In an accepted set no target path lies strictly below (or equals) another one: an
    assignment never walks into a value that an earlier assignment took from a predecessor's
-   output (the only way the model's walker could alter such a value). The values
-   themselves arrive whole ([mapped_get_put]: the target path reads back exactly x). *)
+   output. *)
 Theorem source_not_entered :
   forall (env : senv) (T : ty) (ds : list decl) (ckss : list checks),
     compile env T ds = CAccept ckss ->
     forall l1 p l2 q l3, all_targets ds = l1 ++ p :: l2 ++ q :: l3 -> prefix p q = false /\ prefix q p = false.
 Proof. exact targets_not_nested. Qed.
 Print Assumptions source_not_entered.
+
+(* ---------------------------------------------------------------- static values *)
+
+(* SetStaticValue keeps its values in a Go map, Compile and every run iterate over it in an
+   arbitrary order: the verdict of Compile and the result of every Invoke are the same for
+   every order. *)
+Theorem static_values_order_independent :
+  forall (env : senv) (T : ty) (ds : list decl) (ss ss' : statics),
+    Permutation ss ss' ->
+    compile_s env T ds ss = compile_s env T ds ss' /\
+    forall ckss srcs,
+      compile_s env T ds ss = CAccept ckss -> has_plain ds = false ->
+      Forall2 (fun d s => has_type env (d_ty d) s = true) ds srcs ->
+      run_invoke_s env T ds ss ckss srcs = run_invoke_s env T ds ss' ckss srcs.
+Proof. exact statics_order_independent. Qed.
+Print Assumptions static_values_order_independent.
